@@ -640,7 +640,8 @@ class C30(HistoryProfile):
     w = dict(gen.DEFAULT_WEIGHTS)
     w.update({"add_summary": 8, "update_summary": 3, "remove_column": 8, "remove_table": 2,
               "add_formula_column": 10, "remove_view_things": 3, "set_sort": 8, "add_view_section": 6,
-              "rename_column": 8, "add_view": 3})
+              "rename_column": 8, "add_view": 3, "add_rule": 10, "display_formula": 6,
+              "add_data_column": 8})
     return w
 
   def step(self, sim, ev, st):
